@@ -152,6 +152,60 @@ theorem dijkstra_route_turns_valid_partial (c : Config α) (hadj : c.AdjConsiste
     route_links_fresh (c.inst_wf hadj) (config_zeroH c hwf) hts hrun
   exact ⟨route, h1, h2, fun b hb => (h5 b hb).1, fun i hi => (h6 i hi).1⟩
 
+
+/-! ### Counterexamples on the model for the two recorded findings -/
+
+/-- the 5-vertex re-opening witness (see `C03.staleConfig`) with the turn (w→u, u→v) = (2,3) restricted -/
+def staleTurnConfig : Config ℚ where
+  nV := 5
+  edges := [⟨0, 2, 1000⟩, ⟨0, 1, 100⟩, ⟨1, 2, 100⟩, ⟨2, 3, 100⟩, ⟨3, 4, 100⟩]
+  outAdj := [[0, 1], [2], [3], [4], []]
+  inAdj := [[], [1], [0, 2], [3], [4]]
+  feats := [{ name := "distance", kind := .dist .meters, init := 0 }]
+  trav := .distance .meters
+  access := .noAccess
+  cost := { indices := [0], weights := [1], vehicleRates := [.raw], networkRates := [.zero], agg := .sum }
+  frontier := [.turnRestriction [(2, 3)]]
+  term := .combined []
+  reverse := false
+  gc := [7000, 6000, 5000, 5200, 0]
+  wf := some 1
+
+def routeEdgesOf (r : Except ErrKind (AlgResult ℚ)) : Option (List (List Nat)) :=
+  match r with
+  | .ok res => some (res.routes.map (·.map (·.edge)))
+  | .error _ => none
+
+/-- A* (estimate inconsistent for the network) returns s→w→u→v→t, which takes the restricted turn
+(2,3): u was first expanded via s→u (entry of v written), then re-labelled via w→u, and on its second
+expansion the edge u→v was refused — but v's earlier entry stays. -/
+theorem restricted_turn_after_reopening_counterexample :
+    routeEdgesOf (staleTurnConfig.runVertex 0 (some 4) [0, 2, 1, 2, 3, 4]) = some [[1, 2, 3, 4]] ∧
+    (FrontierM.turnRestriction (α := ℚ) [(2, 3)]).valid 3 (some 2) = some false := by
+  decide +kernel
+
+/-- Edge-oriented seam: origin edge 0 (0→1), destination edge 2 (2→3), restricted turn (0,1):
+the wrapper returns [0,1,2] although the turn from the origin edge onto edge 1 is restricted. -/
+def seamConfig : Config ℚ where
+  nV := 4
+  edges := [⟨0, 1, 10⟩, ⟨1, 2, 10⟩, ⟨2, 3, 10⟩]
+  outAdj := [[0], [1], [2], []]
+  inAdj := [[], [0], [1], [2]]
+  feats := [{ name := "distance", kind := .dist .meters, init := 0 }]
+  trav := .distance .meters
+  access := .noAccess
+  cost := { indices := [0], weights := [1], vehicleRates := [.raw], networkRates := [.zero], agg := .sum }
+  frontier := [.turnRestriction [(0, 1)]]
+  term := .combined []
+  reverse := false
+  gc := [0, 0, 0, 0]
+  wf := some 0
+
+theorem edge_oriented_seam_counterexample :
+    routeEdgesOf (seamConfig.runEdge 0 (some 2) [1, 2]) = some [[0, 1, 2]] ∧
+    (FrontierM.turnRestriction (α := ℚ) [(0, 1)]).valid 1 (some 0) = some false := by
+  decide +kernel
+
 /-! ### Non-vacuity -/
 example : (FrontierM.roadClass (α := ℚ) (some [1, 2]) [0, 2, 5]).valid 1 none = some true := by decide
 example : (FrontierM.roadClass (α := ℚ) (some [1, 2]) [0, 2, 5]).valid 2 none = some false := by decide
